@@ -133,6 +133,13 @@ Theorem C13_padding :
 Proof. exact padding_block_multiple. Qed.
 Print Assumptions C13_padding.
 
+Theorem C13_padding_injective :
+  forall m1 m2, (N.of_nat (length m1) < 2 ^ 61)%N -> (N.of_nat (length m2) < 2 ^ 61)%N ->
+    (pad_be64 m1 = pad_be64 m2 -> m1 = m2) /\ (pad_le64 m1 = pad_le64 m2 -> m1 = m2)
+    /\ (pad_be128 m1 = pad_be128 m2 -> m1 = m2).
+Proof. exact (fun m1 m2 B1 B2 => conj (pad_be64_inj m1 m2 B1 B2) (conj (pad_le64_inj m1 m2 B1 B2) (pad_be128_inj m1 m2 B1 B2))). Qed.
+Print Assumptions C13_padding_injective.
+
 Theorem C13_hmac_lengths :
   forall k m, length (hmac_sha1 k m) = 20 /\ length (hmac_sha256 k m) = 32 /\ length (hmac_sha512 k m) = 64
            /\ length (hmac_ripemd160 k m) = 20.
